@@ -168,6 +168,8 @@ type BuildInfo struct {
 	Summarize string   `json:"summarize,omitempty"`
 	KL        int      `json:"kl"`
 	KM        int      `json:"km"`
+	// Missing: functions of a compared root that variant B's generated file does not contain
+	Missing []string `json:"missing_functions,omitempty"`
 }
 
 // buildProgram assembles the scratch module for one corpus program (same-package mode).
@@ -213,7 +215,7 @@ func buildProgramWithStructs(p *Program, pluginBin, out string, kl, km int, stru
 	must(err)
 	writeFile(filepath.Join(out, "vrt/vrt.go"), vrtSrc)
 	writeFile(filepath.Join(out, pkg, base+".pb.go"), []byte(pb))
-	gen := filepath.Join(out, pkg, resp.File[0].GetName())
+	gen := filepath.Join(out, pkg, filepath.Base(resp.File[0].GetName()))
 	writeFile(gen, []byte(resp.File[0].GetContent()))
 	sup, err := ioutil.ReadFile(filepath.Join(verifRoot, "corpus/support/time_duration.go.txt"))
 	must(err)
